@@ -46,6 +46,18 @@ CHECKS['C11'] = dict(
     technique="Coq proof (remap preserves closure, consecutive numbering) + verified runtime checker + differential check of remap against libinterrogatedb + g++ redeclaration check",
     ref="5/C11")
 
+CHECKS['C20'] = dict(
+    text="Proof: the bounds-checked accessor pattern answers every position with the neutral default or a stored entry and positions 0..count-1 enumerate exactly the stored entries; "
+         "index->record lookups are total; the by-name tables (rebuilt by insertion in index order) return an entity bearing the name (the entity when unique) and 0 for unknown names; "
+         "the unique-name search is total for strings of ANY length/content and any table (fuel = table size + 1 suffices) and exact on sorted tables; the module search terminates and "
+         "returns the module whose index range holds the wrapper; the pinned (unrepaired) search is shown to diverge. Correspondence: querytool sweeps every function of the C interface "
+         "(list regenerated from the header) over all indices/positions on real and synthetic databases, looks up every stored and mutated name, and compares unique-name tables of every "
+         "size with keys in every gap against the extracted model (normal build; plus ASan build in the thorough tier).",
+    note=TB + "the lexicographic byte order is proved to be a strict total order in Coq; std::string operator< and std::map are trusted to implement it; memory safety is observed "
+         "(crash / ASan), not proved.",
+    technique="Coq proof (binary search termination+exactness, lookup tables, accessor totality) + exhaustive interface sweep and differential check against libinterrogatedb",
+    ref="5/C20")
+
 PENDING = {
 }
 
